@@ -68,7 +68,9 @@ func (t DataType) Bytes(endian binary.ByteOrder, value interface{}, length int64
 		}
 		return bs, nil
 	case DATE, DATEN:
-		t := asetime.DurationFromDateTime(value.(time.Time))
+		// Drop the time of day before counting whole days - the division
+		// truncates towards zero, which is the next day before 1900-01-01.
+		t := asetime.DurationFromDateTime(value.(time.Time)) - asetime.DurationFromTime(value.(time.Time))
 		t -= asetime.DurationFromDateTime(asetime.Epoch1900())
 
 		bs := make([]byte, length)
